@@ -130,13 +130,26 @@ def summing(ctx):
         return False
 
     def add_link(e, s, tr):
-        m = pm.match('check_link_integrity(_M, _A._F)', e['_V'])
-        if m is None:
+        # the summand may itself be a sum of checks
+        terms, stack = [], [e['_V']]
+        while stack:
+            x = stack.pop()
+            if isinstance(x, ast.BinOp) and isinstance(x.op, ast.Add):
+                stack.extend([x.right, x.left])
+            else:
+                terms.append(x)
+        found = []
+        for t in terms:
+            m = pm.match('check_link_integrity(_M, _A._F)', t)
+            if m is None:
+                return False
+            a = m['_A']
+            if not (isinstance(a, ast.Name) and s.get('env', {}).get(a.id) == 'ass'):
+                return False
+            found.append(m['_F'])
+        if e['_N'].id not in s.get('cnt', {}):
             return False
-        a = m['_A']
-        if not (isinstance(a, ast.Name) and s.get('env', {}).get(a.id) == 'ass'):
-            return False
-        s['cnt'][e['_N'].id].append(m['_F'])
+        s['cnt'][e['_N'].id].extend(found)
         return True
 
     def norm_rel(e, s, tr):
